@@ -488,8 +488,11 @@ theorem CS.restoreFile (name : Path) (fi : Info) : CS fl (restoreFile cfg name f
   apply CS.bind (CS.attempt (by
     apply CS.bind (CS.hStat hfl cfg f); intro fi'
     apply CS.bind (CS.lexists hfl cfg .base name); intro baseFi
-    apply CS.bind (CS.whenM (CS.primUnit hfl cfg .base _)); intro _
-    exact CS.copyFile hfl cfg .base name fi f)); intro r
+    apply CS.ite
+    · apply CS.bind (CS.primUnit hfl cfg .base _); intro _
+      exact CS.copyFile hfl cfg .base name fi f
+    · apply CS.bind (CS.whenM (CS.primUnit hfl cfg .base _)); intro _
+      exact CS.copyFile hfl cfg .base name fi f)); intro r
   apply CS.bind (CS.attempt (CS.hClose hfl f)); intro _
   cases r with
   | ok u => exact CS.pure _
